@@ -5,6 +5,7 @@ CONSTANTS Operands <- OperandsA
  LongOperands <- OperandsA
  LongOps <- OpsAll
  LongPres <- PresAll
+ RightTakesRest = FALSE
  GoRemainder = FALSE
  Emit = FALSE
 SPECIFICATION Spec
